@@ -123,13 +123,13 @@ theorem decompress_total (chk : Bool) (x : List Nat) (n : Nat) (hn : 1 ≤ n) :
     ∃ r, decompress chk x n = .ok r := by
   unfold decompress
   have hn0 : ¬ (n = 0) := by omega
-  simp only [hn0, if_false, Res.bind_ok, Gen.guardLast]
+  simp only [hn0, if_false, Res.bind_ok]
   obtain ⟨r, hr⟩ := midLoop_ok chk x (n - 1) 0 false []
   simp only [hr, Res.bind_ok]
   match r with
   | none => exact ⟨_, rfl⟩
   | some (index, abort, acc) =>
-    simp only []
+    simp only [lastPart, Gen.guardLast]
     split
     · exact ⟨_, rfl⟩
     · rename_i hg
@@ -211,7 +211,7 @@ theorem decompress_length (chk : Bool) (x : List Nat) (n : Nat) (hn : 1 ≤ n) (
     | some (index, abort, acc), hm, h =>
       have hacc := midLoop_length chk x _ _ _ _ _ _ _ _ hm
       simp only [List.length_nil, Nat.zero_add] at hacc
-      simp only [] at h
+      simp only [lastPart] at h
       by_cases g1 : index + Gen.guardLast ≥ 8 * x.length
       · simp [g1] at h
       · simp only [g1, if_false] at h
